@@ -377,12 +377,15 @@ func runC11(c *Ctx) {
 	ruleSpanConsecutive(c, esf, lhs, rhs)
 	// direct index variables of each side
 	directIdx := map[ssa.Value]string{}
+	ocIdx := newOrig(esf)
 	allInstrs(esf, func(in ssa.Instruction) {
 		if ia, ok := in.(*ssa.IndexAddr); ok {
-			if ia.X == ssa.Value(lhs) {
+			// the input itself, or a window on it that the loop advances by re-slicing
+			_, isPhi := ia.X.(*ssa.Phi)
+			if ia.X == ssa.Value(lhs) || isPhi && ocIdx.of(ia.X).onlyParam(li) {
 				directIdx[ia.Index] = "lhs"
 			}
-			if ia.X == ssa.Value(rhs) {
+			if ia.X == ssa.Value(rhs) || isPhi && ocIdx.of(ia.X).onlyParam(ri) {
 				directIdx[ia.Index] = "rhs"
 			}
 		}
@@ -483,15 +486,39 @@ func runC11(c *Ctx) {
 		if ct, ok := inner.(*ssa.ChangeType); ok {
 			inner = ct.X
 		}
-		sl, ok := inner.(*ssa.Slice)
-		if !ok {
+		// the span is the input itself, a slice expression of it, or a window on it that the loop advances by
+		// re-slicing (lhs = lhs[n:]): every slice expression on the way down to the parameter is held to the rule
+		var ls []ssa.Value
+		seen := map[ssa.Value]bool{}
+		visited := map[ssa.Value]bool{}
+		shapeOK := true
+		var down func(v ssa.Value)
+		down = func(v ssa.Value) {
+			if visited[v] {
+				return
+			}
+			visited[v] = true
+			switch y := v.(type) {
+			case *ssa.ChangeType:
+				down(y.X)
+			case *ssa.Slice:
+				leaves(y.Low, seen, &ls)
+				leaves(y.High, seen, &ls)
+				down(y.X)
+			case *ssa.Phi:
+				for _, e := range y.Edges {
+					down(e)
+				}
+			case *ssa.Parameter:
+			default:
+				shapeOK = false
+			}
+		}
+		down(inner)
+		if !shapeOK {
 			c.undecided("R-EDIT-SPAN", key, pos, "span is not a slice expression")
 			return
 		}
-		var ls []ssa.Value
-		seen := map[ssa.Value]bool{}
-		leaves(sl.Low, seen, &ls)
-		leaves(sl.High, seen, &ls)
 		badLeaf := ""
 		for _, lf := range ls {
 			if directIdx[lf] == side.other {
